@@ -413,13 +413,17 @@ def c15(run):
         flavors = ["plain", "typed"]
         if r["shape"] == "braced":
             flavors += ["packed"] + (["generic"] if r["n"] > 0 else [])
-        if r["shape"] == "tuple_struct" and r["n"] > 0:
-            flavors += ["generic"]
+        if r["shape"] == "tuple_struct":
+            flavors += ["packed"] + (["generic"] if r["n"] > 0 else [])
         for fl in flavors:
             body, exp = gd.runtime_case(r, fl)
             ps.add(body, exp, dict(r, flavor=fl, mac="destructure!"))
         body, exp = gd.const_case(r, "plain")
         ps.add(body, exp, dict(r, flavor="const", mac="destructure!(const fn)"))
+        if r["shape"] in ("braced", "tuple_struct") and r["n"] > 0:
+            # packed aggregates: the field reads must be unaligned reads (only the const evaluator / Miri can tell)
+            body, exp = gd.const_case(r, "packed")
+            ps.add(body, exp, dict(r, flavor="const-packed", mac="destructure!(const fn, packed)"))
     ps.execute()
     run.samples.append({"descriptor": descs[len(descs) // 2]})
     run.assumptions += [BOUNDED, "the drop ledger lives in the harness' element type (per-id created/dropped counts, "
